@@ -64,8 +64,8 @@ func (p Params) String() string {
 }
 
 type Op struct {
-	Op      string `json:"op"`   // cmd | dataset | traffic
-	Face    int    `json:"face"` // index into Config.Faces of the requester
+	Op      string `json:"op"`               // cmd | dataset | traffic
+	Face    int    `json:"face"`             // index into Config.Faces of the requester
 	Prefix  string `json:"prefix,omitempty"` // localhost | localhop | other
 	Module  string `json:"module,omitempty"`
 	Verb    string `json:"verb,omitempty"`
@@ -187,7 +187,7 @@ func (Engine) Generate(prop string, r *kit.Rand, tier string) *kit.Scenario[Conf
 						o.P.Mask = u(1)
 					}
 				}
-				if r.Chance(0.15) {
+				if r.Chance(0.25) {
 					o.P.Persistency = u(uint64(r.Intn(3)))
 				}
 			case "destroy":
@@ -287,6 +287,7 @@ type route struct{ face, origin, cost, flags uint64 }
 
 type faceM struct {
 	exists      bool
+	pers        face.Persistency
 	scope       defn.Scope
 	mtu         int
 	localFields bool
@@ -489,7 +490,9 @@ func (r *runner) setup() {
 	face.Configure()
 	fwmgmt.Configure()
 	table.CreateFIBTable(c.Fib)
-	dispatch.FaceDispatch.Range(func(k, _ any) bool { dispatch.FaceDispatch.Delete(k); return true })
+	for id := uint64(0); id < 1200; id++ { // every face id a scenario can have used (only the exported API, so that the table's representation can change)
+		dispatch.RemoveFace(id)
+	}
 	face.VerifResetFaceTable()
 	var disp []dispatch.FWThread
 	r.ths = nil
@@ -513,6 +516,9 @@ func (r *runner) setup() {
 		m.fib["/localhop/nfd"] = map[uint64]uint64{1: 0}
 	}
 	m.faces[1] = &faceM{exists: true, scope: defn.Local, mtu: defn.MaxNDNPacketSize, localFields: true}
+	if f1 := face.FaceTable.Get(1); f1 != nil {
+		m.faces[1].pers = f1.Persistency()
+	}
 	r.outbox = make([][][]byte, len(c.Faces))
 	for i, fc := range c.Faces {
 		i := i
@@ -536,7 +542,7 @@ func (r *runner) setup() {
 		if ls.FaceID() != uint64(i+2) {
 			panic(fmt.Sprintf("harness: face id %d, expected %d", ls.FaceID(), i+2))
 		}
-		m.faces[uint64(i+2)] = &faceM{exists: true, scope: scope, mtu: defn.MaxNDNPacketSize, localFields: fc.LocalFields}
+		m.faces[uint64(i+2)] = &faceM{exists: true, scope: scope, mtu: defn.MaxNDNPacketSize, localFields: fc.LocalFields, pers: ls.Persistency()}
 	}
 	synctest.Wait()
 }
@@ -609,7 +615,7 @@ func (r *runner) state() (fib, rib, strat map[string]string, csCap int, faces st
 		if ls, ok := f.(*face.NDNLPLinkService); ok {
 			lf = ls.Options().IsConsumerControlledForwardingEnabled
 		}
-		fs = append(fs, fmt.Sprintf("%d:mtu=%d:lf=%v", f.FaceID(), f.MTU(), lf))
+		fs = append(fs, fmt.Sprintf("%d:mtu=%d:lf=%v:p=%d", f.FaceID(), f.MTU(), lf, f.Persistency()))
 	}
 	sort.Strings(fs)
 	faces = strings.Join(fs, " ")
@@ -626,7 +632,7 @@ func (r *runner) modelString() string {
 	fs := []string{}
 	for id, f := range m.faces {
 		if f.exists {
-			fs = append(fs, fmt.Sprintf("%d:mtu=%d:lf=%v", id, f.mtu, f.localFields))
+			fs = append(fs, fmt.Sprintf("%d:mtu=%d:lf=%v:p=%d", id, f.mtu, f.localFields, f.pers))
 		}
 	}
 	sort.Strings(fs)
@@ -963,12 +969,12 @@ func (r *runner) doCmd(o *Op) (int, int) {
 			want = "refuse"
 			break
 		}
-		if o.P.Persistency != nil {
-			want = "any" // per-transport persistency rules are not modelled
-			break
-		}
 		if o.P.Mtu != nil && *o.P.Mtu < 64 {
 			want = "refuse" // cannot carry a packet (the link header alone needs tens of bytes)
+			break
+		}
+		if o.P.Persistency != nil {
+			want = "any" // per-transport persistency rules are not modelled
 			break
 		}
 		if o.P.Mtu != nil && *o.P.Mtu < 128 {
@@ -1056,6 +1062,10 @@ func (r *runner) doCmd(o *Op) (int, int) {
 		}
 		return 0, 1
 	default: // any
+		// whatever the outcome: a command answered with a 4xx status changes nothing
+		if resp.got && resp.status >= 400 && resp.status < 500 && after != before {
+			r.fail("C17/refused-command-changed-state", key, "command %s answered %d changed state:\n before %s\n after  %s", key, resp.status, before, after)
+		}
 		if after != before {
 			r.resync()
 		}
@@ -1116,6 +1126,7 @@ func (r *runner) resync() {
 		ls := face.FaceTable.Get(id)
 		f.exists = ls != nil
 		if ls != nil {
+			f.pers = ls.Persistency()
 			f.mtu = ls.MTU()
 			if l, ok := ls.(*face.NDNLPLinkService); ok {
 				f.localFields = l.Options().IsConsumerControlledForwardingEnabled
